@@ -282,6 +282,28 @@ impl<D: Held + 'static> StreamApi for BoxedStream<D> {
 // ---------------------------------------------------------------------------------------------
 // the channel API, object safe
 
+/// Runs one of the crate's asynchronous polling loops (`flush`, `gracefully_end_all_streams`: check, wake, `tokio::time::sleep(1ms)`, again)
+/// on the calling logical thread: a current-thread tokio runtime with a paused clock supplies the timer (its clock jumps to the next deadline
+/// whenever the future is pending), and every `Pending` -- i.e. every sleep of the loop -- is a scheduling point after which the thread goes
+/// on only once another thread has taken a step or nobody else can run.  Returns (result, number of sleeps).
+fn drive_polling_loop<F: std::future::Future<Output = u32>>(ctx: &Ctx, fut: F) -> (u32, u64) {
+    let rt = tokio::runtime::Builder::new_current_thread().enable_time().start_paused(true).build().unwrap();
+    let mut sleeps = 0u64;
+    let r = rt.block_on(async {
+        let mut fut = Box::pin(fut);
+        std::future::poll_fn(|cx| match fut.as_mut().poll(cx) {
+            Poll::Ready(n) => Poll::Ready(n),
+            Poll::Pending => {
+                sleeps += 1;
+                ctx.sleep_point();
+                Poll::Pending
+            }
+        })
+        .await
+    });
+    (r, sleeps)
+}
+
 pub trait ChanApi: Send + Sync {
     fn send(&self, v: u64) -> bool;
     fn send_with(&self, ctx: &Ctx, v: u64, yield_inside: bool) -> (bool, bool);
@@ -292,6 +314,10 @@ pub trait ChanApi: Send + Sync {
     fn cancel_reserved(&self, ptr: usize) -> bool;
     fn create(&self, how: &str) -> Vec<Box<dyn StreamApi>>;
     fn cancel_all(&self);
+    /// gracefully_end_all_streams(Duration::ZERO) -- unbounded timeout; returns the number of streams still running
+    fn end_all(&self, ctx: &Ctx) -> (u32, u64);
+    /// flush(Duration::ZERO); returns the number of items still pending
+    fn flush(&self, ctx: &Ctx) -> (u32, u64);
     fn pending(&self) -> u32;
     fn running(&self) -> u32;
     fn is_open(&self) -> bool;
@@ -463,6 +489,14 @@ where
     }
     fn cancel_all(&self) {
         self.c.cancel_all_streams()
+    }
+    fn end_all(&self, ctx: &Ctx) -> (u32, u64) {
+        let c = Arc::clone(&self.c);
+        drive_polling_loop(ctx, async move { c.gracefully_end_all_streams(std::time::Duration::ZERO).await })
+    }
+    fn flush(&self, ctx: &Ctx) -> (u32, u64) {
+        let c = Arc::clone(&self.c);
+        drive_polling_loop(ctx, async move { c.flush(std::time::Duration::ZERO).await })
     }
     fn pending(&self) -> u32 {
         self.c.pending_items_count()
@@ -809,6 +843,14 @@ impl Sut for ChanSut {
             "cancel_all" => {
                 api.cancel_all();
                 json!({"ok": true, "v": 0})
+            }
+            "close" => {
+                let (left, sleeps) = api.end_all(ctx);
+                json!({"ok": left == 0, "v": left, "sleeps": sleeps, "open": api.is_open(), "running": api.running()})
+            }
+            "flush" => {
+                let (left, sleeps) = api.flush(ctx);
+                json!({"ok": left == 0, "v": left, "sleeps": sleeps})
             }
             "pending" => json!({"ok": true, "v": api.pending()}),
             "running" => json!({"ok": true, "v": api.running()}),
